@@ -618,25 +618,46 @@ theorem count_via_sinkOf (ev : SEv) : ∀ sink : List (SEv × Bool),
         · have : (p.1.w == ev.w) = false := by simp [h2]
           simp [hne, this, ih]
 
-theorem testsEvents_noBroken (wi : Nat) (ev : SEv) (hev : ev.id = .broken) : ∀ (ts : List WTest) (j : Nat),
-    (testsEvents wi j ts).filter (· == ev) = []
-  | [], _ => rfl
-  | t :: ts, j => by
-      have hne : ∀ k : SKind, ((⟨wi, .t j, k⟩ : SEv) == ev) = false := by
-        intro k; simp; intro hc; rw [← hc] at hev; cases hev
-      simp [testsEvents, hne, testsEvents_noBroken wi ev hev ts (j + 1)]
+theorem testEvents_ids (wi j : Nat) (t : WTest) : ∀ e ∈ testEvents wi j t, ∃ n, e.id = .t n := by
+  intro e h
+  unfold testEvents at h
+  split at h
+  · obtain ⟨ne, _, rfl⟩ := List.mem_map.mp h; exact ⟨ne.id, rfl⟩
+  · simp only [List.mem_cons, List.not_mem_nil, or_false] at h
+    rcases h with rfl | rfl <;> exact ⟨j, rfl⟩
 
-theorem fileEvents_noFail (wi : Nat) : ∀ n : Nat, (fileEvents wi n).filter (· == (⟨wi, .broken, .st .fail⟩ : SEv)) = []
-  | 0 => by simp [fileEvents]
-  | 1 => by simp [fileEvents]
-  | n + 2 => by simp [fileEvents, fileEvents_noFail wi (n + 1)]
+theorem testsEvents_ids (wi : Nat) : ∀ (ts : List WTest) (j : Nat), ∀ e ∈ testsEvents wi j ts, ∃ n, e.id = .t n
+  | [], _, e, h => by simp [testsEvents] at h
+  | t :: ts, j, e, h => by
+      simp only [testsEvents, List.mem_append] at h
+      rcases h with h | h
+      · exact testEvents_ids wi j t e h
+      · exact testsEvents_ids wi ts (j + 1) e h
+
+theorem testsEvents_noBroken (wi : Nat) (ev : SEv) (hev : ev.id = .broken) (ts : List WTest) (j : Nat) :
+    (testsEvents wi j ts).filter (· == ev) = [] := by
+  rw [List.filter_eq_nil_iff]
+  intro e he
+  obtain ⟨n, hn⟩ := testsEvents_ids wi ts j e he
+  simp only [beq_iff_eq]
+  intro hc; rw [hc, hev] at hn; cases hn
+
+theorem fileEvents_noFail (wi : Nat) : ∀ n : Nat, (fileEvents wi n).filter (· == brokenFail wi) = []
+  | 0 => by simp [fileEvents, brokenFail]
+  | 1 => by simp [fileEvents, brokenFail]
+  | n + 2 => by
+      have := fileEvents_noFail wi (n + 1)
+      have e1 : ((⟨wi, .broken, .file false, none, none⟩ : SEv) == brokenFail wi) = false := by simp [brokenFail]
+      simp only [fileEvents, List.filter_cons, e1, this]
+      rfl
 
 theorem stream_broken_count (wi tb : Nat) (w : Worker) :
-    ((streamEvents wi tb w).filter (· == (⟨wi, .broken, .st .fail⟩ : SEv))).length = (if w.boom then 1 else 0) := by
+    ((streamEvents wi tb w).filter (· == brokenFail wi)).length = (if w.boom then 1 else 0) := by
   unfold streamEvents
   rw [List.filter_append, testsEvents_noBroken wi _ rfl]
   split
-  · simp [brokenEvents, List.filter_append, fileEvents_noFail]
+  · have e1 : ((⟨wi, .broken, .st .inprogress, none, none⟩ : SEv) == brokenFail wi) = false := by simp [brokenFail]
+    simp [brokenEvents, List.filter_append, fileEvents_noFail, List.filter_cons, e1]
   · rfl
 
 theorem c_brokenRunner (i : SInput) : cBrokenRunner i (modelC i) = true := by
@@ -662,9 +683,10 @@ theorem c_brokenRunner (i : SInput) : cBrokenRunner i (modelC i) = true := by
       simp only [statusesOf, List.filterMap_nil, List.append_nil] at hacct
       have hcount : brokenFails w (modelC i) = (if i.workers[w].boom then 1 else 0) := by
         simp only [brokenFails, modelC, traceOf, List.filter_map, List.length_map]
-        have := count_via_sinkOf (⟨w, .broken, .st .fail⟩ : SEv) (finalC i).sink
+        have := count_via_sinkOf (brokenFail w) (finalC i).sink
         simp only [Function.comp_def] at this ⊢
-        rw [this, hacct, eventsOf_stream i hf]
+        have hbw : (brokenFail w).w = w := rfl
+        rw [this, hbw, hacct, eventsOf_stream i hf]
         simp only [wEvents, workerAt, hwk]
         exact stream_broken_count w i.tb _
       simp [hcount]
@@ -771,10 +793,37 @@ theorem C13_delivery_prefix (i : SInput) (sched : List Nat) (w : Nat) (hw : w < 
   have := (SInv_runC sched (SInv_init i) (QInv_init i)).acct w hw
   exact ⟨hand (reach i sched) w ++ statusesOf (todoItems (reach i sched) w), by simpa [reach] using this⟩
 
+/-- **C13 (native emitters)** — a test that speaks the stream protocol itself contributes exactly its scripted events,
+in order, to its worker's events (which `C13_complete` / `C13_delivery_prefix` say are delivered) … -/
+theorem C13_native_events (wi j : Nat) (t : WTest) (evs : List NEv) (h : t.native = some evs) :
+    testEvents wi j t = evs.map (nativeEvent wi) := by
+  simp [testEvents, h]
+
+/-- … each carrying the worker's route code, its own id, payload and tags, and **its own instant if it supplied
+one**; an event emitted with the `timestamp` keyword omitted or with `timestamp=None` carries no instant of
+its own: it is stamped with the wall clock (in the trace: `hasTimestamp`, see `C13_delivered_stamped`). -/
+theorem C13_native_event (wi : Nat) (e : NEv) :
+    (nativeEvent wi e).w = wi ∧ (nativeEvent wi e).id = .t e.id ∧ (nativeEvent wi e).kind = e.kind
+    ∧ (nativeEvent wi e).tags = e.tags.map normTags
+    ∧ (∀ n, e.ts = .given n → (nativeEvent wi e).ts = some n)
+    ∧ (e.ts = .omitted ∨ e.ts = .none → (nativeEvent wi e).ts = none) := by
+  refine ⟨rfl, rfl, rfl, rfl, ?_, ?_⟩
+  · intro n h; simp [nativeEvent, h]
+  · intro h; rcases h with h | h <;> simp [nativeEvent, h]
+
+/-- **C13 (every delivered event has a time stamp)** — in the model's trace every event the caller's result
+received is time-stamped; together with `c_delivered` (the delivered events of worker `w` are its events,
+instants included) this is the clause "carrying that worker's route code and a timestamp". -/
+theorem C13_delivered_stamped (i : SInput) : ∀ p ∈ (modelC i).sink, p.2.1 = true := by
+  intro p hp
+  simp only [modelC, traceOf, List.mem_map] at hp
+  obtain ⟨q, _, rfl⟩ := hp
+  rfl
+
 /-- **C13 (broken runner, stream)** — the events of a worker whose `run()` raises contain exactly one final
 `fail` status of the `broken-runner` test; those of other workers none. -/
 theorem C13_broken_runner_stream (wi tb : Nat) (w : Worker) :
-    ((streamEvents wi tb w).filter (· == (⟨wi, .broken, .st .fail⟩ : SEv))).length = (if w.boom then 1 else 0) :=
+    ((streamEvents wi tb w).filter (· == brokenFail wi)).length = (if w.boom then 1 else 0) :=
   stream_broken_count wi tb w
 
 /-- **C13 (broken runner, suite)** — when the caller's result does not raise, the sections of a worker whose
@@ -841,9 +890,36 @@ example : (modelC exStreamAbort).result = some (.raised .injected)
     ∧ registered (modelC exStreamAbort) = [0, 1] ∧ (modelC exStreamAbort).flags = [true, true]
     ∧ holds exStreamAbort (modelC exStreamAbort) = true := by decide
 
+def exNative : SInput :=
+  { flavour := .stream,
+    workers := [{ tests := [{ kind := .success, tags := [2] }], boom := false, faults := [] },
+                { tests := [{ kind := .success, tags := [],
+                              native := some [⟨0, .st .inprogress, none, .none⟩, ⟨0, .file true, some [1], .given 7⟩,
+                                              ⟨0, .st .success, some [], .omitted⟩] }], boom := false, faults := [] }],
+    mkRaise := none, intr := none, mfaults := [], tb := 4, sched := [0, 0, 2, 0, 1, 2, 0, 2, 1] }
+
+/-- a native emitter next to a TestResult-API test: its three events arrive in order with route code 1; the one
+with a given instant keeps it, the ones with `timestamp=None` / no `timestamp` carry the wall clock -/
+example : (modelC exNative).result = some .returned
+    ∧ Spec.C13.sinkOf 1 (modelC exNative) =
+        [⟨1, .t 0, .st .inprogress, none, none⟩, ⟨1, .t 0, .file true, some [1], some 7⟩, ⟨1, .t 0, .st .success, some [], none⟩]
+    ∧ Spec.C13.sinkOf 0 (modelC exNative) = [⟨0, .t 0, .st .inprogress, none, none⟩, ⟨0, .t 0, .st .success, some [2], none⟩]
+    ∧ holds exNative (modelC exNative) = true := by decide
+
+/-- an event that arrives without a time stamp is rejected by the `delivered` clause (what seed C13-d does to the
+event emitted with `timestamp=None`) -/
+example : cDelivered exNative
+    { (modelC exNative) with sink := (modelC exNative).sink.map fun p => if p.1.kind = .st .inprogress then (p.1, false, p.2.2) else p } = false := by
+  decide
+
+/-- … and so is a given instant that was replaced by the wall clock -/
+example : cDelivered exNative
+    { (modelC exNative) with sink := (modelC exNative).sink.map fun p => ({ p.1 with ts := none }, p.2) } = false := by
+  decide
+
 /-- the `delivered` clause is not trivially true: a duplicated event is rejected -/
 example : cDelivered { exStreamAbort with mfaults := [] }
     { (modelC { exStreamAbort with mfaults := [] }) with
-      sink := (modelC { exStreamAbort with mfaults := [] }).sink ++ [(⟨0, .t 0, .st .success⟩, true, false)] } = false := by decide
+      sink := (modelC { exStreamAbort with mfaults := [] }).sink ++ [(⟨0, .t 0, .st .success, some [], none⟩, true, false)] } = false := by decide
 
 end TTV.Props.C13
